@@ -149,7 +149,12 @@ pub fn par_for(total: u64, block: u64, f: impl Fn(u64, &mut Acc) + Sync) -> Acc 
                             if idx > best.load(Ordering::Relaxed) {
                                 break;
                             }
-                            f(idx, &mut acc);
+                            // a panic that escapes the judge of one case is a verdict about that case (the
+                            // operation under test did not complete), not a crash of the machinery
+                            if let Err(p) = std::panic::catch_unwind(std::panic::AssertUnwindSafe(|| f(idx, &mut acc))) {
+                                let msg = p.downcast_ref::<&str>().map(|s| s.to_string()).or_else(|| p.downcast_ref::<String>().cloned()).unwrap_or_else(|| "non-string panic".into());
+                                acc.fail(idx, "", format!("the operation under test panicked while case {idx} of this enumeration was evaluated: {msg}"), serde_json::json!({"kind": "panic-in-case", "key": "panic-in-case", "index": idx}));
+                            }
                             if let Some((k, _)) = &acc.viol {
                                 best.fetch_min(*k, Ordering::Relaxed);
                             }
@@ -257,7 +262,10 @@ impl Report {
             extra: Map::new(),
             wall_s: 0.0,
         };
-        body(&mut s);
+        if let Err(p) = std::panic::catch_unwind(std::panic::AssertUnwindSafe(|| body(&mut s))) {
+            let msg = p.downcast_ref::<&str>().map(|s| s.to_string()).or_else(|| p.downcast_ref::<String>().cloned()).unwrap_or_else(|| "non-string panic".into());
+            s.acc.fail(u64::MAX - 1, name, format!("the operation under test panicked while this enumeration ran: {msg}"), serde_json::json!({"kind": "panic-in-case", "key": "panic-in-case"}));
+        }
         if s.states == 0 {
             s.states = s.acc.evals;
         }
